@@ -1,6 +1,6 @@
 import os
 
-from typing import Optional
+from typing import Any, Optional
 
 from afmparser import AFMParser
 from afmparser import get_tree
@@ -134,22 +134,28 @@ class AFMReader(TextToModel):
         if discrete_domain_node is not None:
             values = []
             for value in discrete_domain_node.value_spec():
-                values.append(value.getText())
+                values.append(self._read_value(value))
             domain = Domain(None, values)
 
         range_domain_node = attribute_spec.attribute_domain().range_domain_spec()
         if range_domain_node is not None:
             range_list = []
             for domain_range in range_domain_node.domain_range():
-                range_list.append(Range(domain_range.INT()[0], domain_range.INT()[1]))
+                range_list.append(Range(int(domain_range.INT()[0].getText()),
+                                        int(domain_range.INT()[1].getText())))
             domain = Domain(range_list, None)
 
-        default_value = attribute_spec.attribute_default_value().value_spec().getText()
-        null_value = attribute_spec.attribute_null_value().value_spec().getText()
+        default_value = self._read_value(attribute_spec.attribute_default_value().value_spec())
+        null_value = self._read_value(attribute_spec.attribute_null_value().value_spec())
 
         attribute = Attribute(attribute_name, domain, default_value, null_value)
         attribute.set_parent(attribute_feature)
         attribute_feature.add_attribute(attribute)
+
+    @staticmethod
+    def _read_value(value_spec: AFMParser.Value_specContext) -> Any:
+        """An integer for an INT token, otherwise the text of the value."""
+        return int(value_spec.getText()) if value_spec.INT() is not None else value_spec.getText()
 
     def set_constraints(self) -> None:
         constraints_block = self.parse_tree.constraints_block()
